@@ -364,8 +364,11 @@ names = ['name', 'i', 't', 'd', 's']
 for obj in (P, P(i=5, s='y')):
     for r in range(len(names) + 1):
         for subset in [None] + [list(c) for c in itertools.combinations(names, r)]:
-            text = obj.param.serialize_parameters(subset=subset)
-            got = json.loads(text)
+            try:
+                text = obj.param.serialize_parameters(subset=subset)
+                got = json.loads(text)
+            except Exception as e:
+                bad.append('serialize_parameters(subset=%r) raised %s: %s' % (subset, type(e).__name__, e)); continue
             want_keys = set(names if subset is None else subset)
             if set(got) != want_keys:
                 bad.append('serialize_parameters(subset=%r): keys %r' % (subset, sorted(got)))
@@ -373,8 +376,11 @@ for obj in (P, P(i=5, s='y')):
             for n in got:
                 if got[n] != json.loads(obj.param.serialize_value(n)):
                     bad.append('serialize_parameters(subset=%r)[%r] == %r, serialize_value gives %s' % (subset, n, got[n], obj.param.serialize_value(n)))
-            full = obj.param.serialize_parameters()
-            back = obj.param.deserialize_parameters(full, subset=subset)
+            try:
+                full = obj.param.serialize_parameters()
+                back = obj.param.deserialize_parameters(full, subset=subset)
+            except Exception as e:
+                bad.append('deserialize_parameters(subset=%r) raised %s: %s' % (subset, type(e).__name__, e)); continue
             if set(back) != want_keys:
                 bad.append('deserialize_parameters(subset=%r): keys %r' % (subset, sorted(back)))
                 continue
